@@ -46,6 +46,31 @@ RwWrap(S, doc, vars) ==
           RW("Wrap", TRUE, EditSel(doc, x, <<dInl("", <<x.s>>)>>), vars)}
          : x \in {y \in SelSites(S, doc) : IsComposite(S, y.T)}}
 
+\* second family: inline fragments on one type.  One inline fragment with two or more selections written as two adjacent
+\* fragments (same type condition, same directives) that select the two halves - and back: two ADJACENT inline fragments with
+\* the same type condition and directives merged into one.
+RwSplitInline(S, doc, vars) ==
+  UNION {{LET f == y.sel[i]
+          IN RW("SplitInline", TRUE,
+                EditSet(doc, y, ReplaceAt(y.sel, i, <<[f EXCEPT !.sel = SubSeq(f.sel, 1, 1)], [f EXCEPT !.sel = SubSeq(f.sel, 2, Len(f.sel))]>>)), vars)
+          : i \in {j \in DOMAIN y.sel : y.sel[j].k = "inline" /\ Len(y.sel[j].sel) >= 2}}
+         : y \in SetSites(S, doc)}
+RwMergeInline(S, doc, vars) ==
+  UNION {{RW("MergeInline", TRUE,
+             EditSet(doc, y, ReplaceAt(RemoveAt(y.sel, i + 1), i, <<[y.sel[i] EXCEPT !.sel = @ \o y.sel[i + 1].sel]>>)), vars)
+          : i \in {j \in 1..(Len(y.sel) - 1) : y.sel[j].k = "inline" /\ y.sel[j + 1].k = "inline" /\ y.sel[j].on = y.sel[j + 1].on
+                                                 /\ y.sel[j].dirs = y.sel[j + 1].dirs}}
+         : y \in SetSites(S, doc)}
+
+\* type-case distribution: a field selected on an interface-typed position is selected once inside an inline fragment per
+\* possible object type instead (exactly one of them applies at run time).  Same response, different printed form.
+RwDistribute(S, doc, vars) ==
+  {LET pts == SetToSeq(PossibleTypes(S, x.T))
+   IN RW("Distribute", FALSE, EditSel(doc, x, [i \in DOMAIN pts |-> dInl(pts[i], <<x.s>>)]), vars)
+   \* only where every implementation declares the field with the interface's type (else the copies cannot be merged, 5.3.2)
+   : x \in {y \in FieldSites(S, doc) : TypeKind(S, y.T) = "INTERFACE" /\ PossibleTypes(S, y.T) # {} /\ HasField(S, y.T, y.s.name)
+                                         /\ \A o \in PossibleTypes(S, y.T) : FieldDef(S, o, y.s.name).type = FieldDef(S, y.T, y.s.name).type}}
+
 ----------------------------------------------------------------------------
 \* duplicated fields: a copy after the original (at the end of the set, or right behind it)
 RwDupField(S, doc, vars) ==
@@ -108,7 +133,8 @@ RwLitToVar(S, doc, vars) ==
          : x \in {y \in FieldSites(S, doc) : y.r[1] = "op"}}
 
 ----------------------------------------------------------------------------
-RewriteKinds == <<"InlineToSpread", "SpreadToInline", "Flatten", "Wrap", "DupField", "SplitField", "RenameVar", "LitToVar", "Reorder">>
+RewriteKinds == <<"InlineToSpread", "SpreadToInline", "Flatten", "Wrap", "DupField", "SplitField", "RenameVar", "LitToVar", "Reorder",
+                  "SplitInline", "MergeInline", "Distribute">>
 
 RewritesOfKind(kind, S, doc, vars) ==
   CASE kind = "InlineToSpread" -> RwInlineToSpread(S, doc, vars)
@@ -120,6 +146,9 @@ RewritesOfKind(kind, S, doc, vars) ==
     [] kind = "RenameVar" -> RwRenameVar(S, doc, vars)
     [] kind = "LitToVar" -> RwLitToVar(S, doc, vars)
     [] kind = "Reorder" -> RwReorder(S, doc, vars)
+    [] kind = "SplitInline" -> RwSplitInline(S, doc, vars)
+    [] kind = "MergeInline" -> RwMergeInline(S, doc, vars)
+    [] kind = "Distribute" -> RwDistribute(S, doc, vars)
 
 Rewrites(S, doc, vars) == UNION {RewritesOfKind(RewriteKinds[i], S, doc, vars) : i \in DOMAIN RewriteKinds}
 
